@@ -89,4 +89,10 @@ DoneOK ==
         /\ (~Float => (EqualWidth(edges) /\ Len(edges) = n + 1))      \* integers: equal widths, advertised count = bins built
 
 Terminates == <>(pc = "done")
+
+(* Integer instance: refinement of the module whose invariants are PROVED for all integers min < max and width > 0 by  *)
+(* TLAPS (EquiSpacedAlg.tla, proofs in EquiSpacedProof.tla); the edge construction that follows the count loop is     *)
+(* stuttering there.                                                                                                 *)
+PP == INSTANCE EquiSpacedAlg WITH pc <- IF pc = "count" THEN "count" ELSE "build"
+RefinesProof == PP!Spec
 =============================================================================
